@@ -66,6 +66,53 @@ func memoSequential(r *rng, g *storeGen, n int, hist map[string]int) {
 				}
 				hist[op]++
 				g.emit(fmt.Sprintf("S %s %s", op, joinInts(ids)), "same "+okErr(err))
+			case x < 4 && r.chance(1, 3):
+				// windows that end just before, at, and just after the anchor of a stored triple, one look-up after the
+				// other with no write in between: options that differ by a nanosecond are different options
+				var tmp []int
+				for _, id := range g.okIDs() {
+					if g.uni[id].Predicate().Type() == predicate.Temporal {
+						tmp = append(tmp, id)
+					}
+				}
+				if len(tmp) == 0 {
+					continue
+				}
+				tid := tmp[r.intn(len(tmp))]
+				t := g.uni[tid]
+				hist["add"]++
+				g.emit(fmt.Sprintf("S add %d", tid), "same "+okErr(h.AddTriples(ctx, []*triple.Triple{t})))
+				a, _ := t.Predicate().TimeAnchor()
+				m := []string{"triples", "triplesForS", "triplesForO", "objects", "predsForS"}[r.intn(5)]
+				needS, needP, needO := methodNeeds(m)
+				var s *node.Node
+				var p *predicate.Predicate
+				var o *triple.Object
+				if needS {
+					s = t.Subject()
+				}
+				if needP {
+					p = t.Predicate()
+				}
+				if needO {
+					o = t.Object()
+				}
+				for _, d := range []time.Duration{0, 1, -1, 400 * time.Millisecond, -400 * time.Millisecond, 0} {
+					b := a.Add(d)
+					lo := &storage.LookupOptions{}
+					if r.chance(1, 2) {
+						lo.LowerAnchor = &b
+					} else {
+						lo.UpperAnchor = &b
+					}
+					x, y := runLookup(h, m, s, p, o, lo), runLookup(plain, m, s, p, o, lo)
+					hist["window-pair"]++
+					ans := "same"
+					if x != y {
+						ans = fmt.Sprintf("differs memo=%s plain=%s", x, y)
+					}
+					g.emit(fmt.Sprintf("S look %s lo=%s", m, encLo(lo)), ans)
+				}
 			case x < 4:
 				id := g.okIDs()[r.intn(len(g.okIDs()))]
 				a, e1 := h.Exist(ctx, g.uni[id])
@@ -196,7 +243,55 @@ func memoSequential(r *rng, g *storeGen, n int, hist map[string]int) {
 						}
 					}
 				}
-				recent = append(recent, recentRead{m, s, p, o, lo})
+				// … or the same look-up with sibling OPTIONS: one field moved a little (a bound by a nanosecond, by half a
+				// second, to the anchor of a stored predicate; the page by one; LatestAnchor flipped): an answer must never be
+				// replayed for options that differ in any field
+				if len(recent) > 0 && r.chance(1, 4) {
+					rc := recent[r.intn(len(recent))]
+					for k := 0; k < 6 && !rc.nonEmpty; k++ {
+						rc = recent[r.intn(len(recent))] // an answer that was memoized, if there is one
+					}
+					m, s, p, o = rc.m, rc.s, rc.p, rc.o
+					cp := *rc.lo
+					lo = &cp
+					move := func(t *time.Time) *time.Time {
+						var base time.Time
+						if t != nil {
+							base = *t
+						} else {
+							ps := []*predicate.Predicate{}
+							for _, q := range preds {
+								if q.Type() == predicate.Temporal {
+									ps = append(ps, q)
+								}
+							}
+							if len(ps) == 0 {
+								return nil
+							}
+							ta, _ := ps[r.intn(len(ps))].TimeAnchor()
+							base = *ta
+						}
+						d := []time.Duration{1, -1, 500 * time.Millisecond, -500 * time.Millisecond, 0, time.Second}[r.intn(6)]
+						nt := base.Add(d)
+						return &nt
+					}
+					switch r.intn(5) {
+					case 0:
+						lo.LowerAnchor = move(lo.LowerAnchor)
+					case 1:
+						lo.UpperAnchor = move(lo.UpperAnchor)
+					case 2:
+						lo.MaxElements += 1
+					case 3:
+						lo.Offset += 1
+					default:
+						if lo.FilterOptions == nil {
+							lo.LatestAnchor = !lo.LatestAnchor
+						}
+					}
+					hist["sibling-options"]++
+				}
+				recent = append(recent, recentRead{m, s, p, o, lo, false})
 				if len(recent) > 6 {
 					recent = recent[1:]
 				}
@@ -225,6 +320,7 @@ func memoSequential(r *rng, g *storeGen, n int, hist map[string]int) {
 				}
 				if strings.HasPrefix(b, "ok ") && len(b) > 3 {
 					hist["read-nonempty"]++
+					recent[len(recent)-1].nonEmpty = true
 				}
 				g.emit(fmt.Sprintf("S look %s lo=%s", m, encLo(lo)), ans)
 			}
@@ -238,6 +334,7 @@ type recentRead struct {
 	p  *predicate.Predicate
 	o  *triple.Object
 	lo *storage.LookupOptions
+	nonEmpty bool // the look-up returned something (only such answers are memoized)
 }
 
 // ---- interleavings ----
